@@ -1247,7 +1247,7 @@ fn prog_strategy_general(mix: Mix, max_threads: usize, max_ops: usize) -> impl S
 
 /* ------------------------------- exploration ------------------------------- */
 
-#[derive(Clone, Debug)]
+#[derive(Clone, Debug, Serialize, Deserialize)]
 pub struct Budget {
     /// maximum number of single-preemption schedules (evenly sampled beyond that)
     pub single: usize,
